@@ -159,6 +159,41 @@ pub fn check_program(sh: &mut Shard, base: &[Stmt]) -> u64 {
     runs
 }
 
+/// Pairs of DIFFERENT names (or texts) that a shortcut could take for one another.
+pub fn confusable_pairs() -> Vec<(String, String)> {
+    let long = |c: &str, tail: &str| format!("{}{}", c.repeat(8), tail);
+    let pairs: Vec<(String, String)> = vec![
+            ("Aa".into(), "BB".into()),
+            ("AaAa".into(), "BBBB".into()),
+            ("AaBB".into(), "BBAa".into()),
+            ("kamerAa".into(), "kamerBB".into()),
+            ("az".into(), "bY".into()),
+            ("ab".into(), "ba".into()),
+            ("abc".into(), "acb".into()),
+            ("abc".into(), "xyz".into()),
+            ("ad".into(), "bc".into()),
+            ("naam".into(), "Naam".into()),
+            ("naam".into(), "NAAM".into()),
+            ("a".into(), "A".into()),
+            ("x1".into(), "x2".into()),
+            ("x_1".into(), "x1".into()),
+            ("_a".into(), "a_".into()),
+            (long("a", "1"), long("a", "2")),
+            (long("ab", "1"), long("ab", "2")),
+            (long("abcd", "1"), long("abcd", "2")),
+            (format!("1{}", "a".repeat(8)).replace('1', "b"), format!("c{}", "a".repeat(8))),
+            (format!("x{}", "a".repeat(32)), format!("y{}", "a".repeat(32))),
+            ("a".repeat(255), "a".repeat(256)),
+            ("a".into(), "\u{430}".into()),
+            ("e".into(), "\u{e9}".into()),
+            ("\u{e9}".into(), "\u{ea}".into()),
+            ("ss".into(), "\u{df}".into()),
+            ("k".into(), "\u{212a}".into()),
+            ("\u{3c9}".into(), "\u{3a9}".into()),
+    ];
+    pairs
+}
+
 fn run(sh: &mut Shard) {
     let tier = sh.cfg.tier;
     // slot-number ladders: many globals / nested block locals, each read back
@@ -189,36 +224,7 @@ fn run(sh: &mut Shard) {
     {
         use crate::gen::*;
         use nederlang::verif::Operator;
-        let long = |c: &str, tail: &str| format!("{}{}", c.repeat(8), tail);
-        let pairs: Vec<(String, String)> = vec![
-            ("Aa".into(), "BB".into()),
-            ("AaAa".into(), "BBBB".into()),
-            ("AaBB".into(), "BBAa".into()),
-            ("kamerAa".into(), "kamerBB".into()),
-            ("az".into(), "bY".into()),
-            ("ab".into(), "ba".into()),
-            ("abc".into(), "acb".into()),
-            ("abc".into(), "xyz".into()),
-            ("ad".into(), "bc".into()),
-            ("naam".into(), "Naam".into()),
-            ("naam".into(), "NAAM".into()),
-            ("a".into(), "A".into()),
-            ("x1".into(), "x2".into()),
-            ("x_1".into(), "x1".into()),
-            ("_a".into(), "a_".into()),
-            (long("a", "1"), long("a", "2")),
-            (long("ab", "1"), long("ab", "2")),
-            (long("abcd", "1"), long("abcd", "2")),
-            (format!("1{}", "a".repeat(8)).replace('1', "b"), format!("c{}", "a".repeat(8))),
-            (format!("x{}", "a".repeat(32)), format!("y{}", "a".repeat(32))),
-            ("a".repeat(255), "a".repeat(256)),
-            ("a".into(), "\u{430}".into()),
-            ("e".into(), "\u{e9}".into()),
-            ("\u{e9}".into(), "\u{ea}".into()),
-            ("ss".into(), "\u{df}".into()),
-            ("k".into(), "\u{212a}".into()),
-            ("\u{3c9}".into(), "\u{3a9}".into()),
-        ];
+        let pairs = confusable_pairs();
         for (n1, n2) in &pairs {
             let progs: Vec<Vec<Stmt>> = vec![
                 vec![let_(n1, int(1)), let_(n2, int(2)), es(assign(id(n1), infix(id(n1), Operator::Add, int(10)))), es(array(vec![id(n1), id(n2)]))],
